@@ -1465,7 +1465,10 @@ func (m *StateMachine) beginCommit(
 			"round", rlc.R,
 			"committing_hash", glog.Hex(vrv.VoteSummary.MostVotedPrecommitHash),
 		)
-		return
+
+		// This is not a failure: handleCommitWaitViewUpdate makes the finalization request
+		// once a view update carries the proposed block.
+		return true
 	}
 
 	return gchan.SendC(
